@@ -121,6 +121,11 @@ def c05_files(rng, tiny_f64: bool) -> typing.Dict[str, str]:
         'float32 HALFWAY = 16777217.0',           # exactly between two binary32 values
         'float64 HALFWAY64 = 9007199254740993.0',  # exactly between two binary64 values
     ] + _rand_float_consts(rng, 14)
+    # operands beyond 2^53 (each is rounded to double before the division): F-FLOAT-OPERAND-ROUNDING; the first one is its witness
+    floats += ['float64 TWO_ULP = 1152921504606847105.0 / 1152921504606847359.0']
+    for i in range(6):
+        a, b = rng.randint(2 ** 53, 2 ** 64), rng.randint(2 ** 53, 2 ** 64)
+        floats.append('float%d BIGOP%d = %d.0 / %d.0' % (rng.choice([64, 64, 32]), i, a, b))
     if tiny_f64:      # only while F-FLOAT-LIT-RANGE does not reproduce: rationals whose denominator exceeds the range of double
         floats += ['float64 F64TINY = 4.9406564584124654e-324', 'float64 F64MINN = 2.2250738585072014e-308', 'float64 F64SUB = 1.0e-310']
     svc_id, msg_id = rng.randint(1, 510), rng.randint(2, 8190)
@@ -154,6 +159,15 @@ def c05_files(rng, tiny_f64: bool) -> typing.Dict[str, str]:
         'nsa/c05/Arr.1.0.dsdl': 'uint8[1] a1\nuint8[<=1] v1\nbool[1] b1\nbool[<=1] bv1\nbool[9] b9\nbool[<=%d] bvn\nint17[<=1] x\n'
                                 'nsa.c05.Empty.1.0[1] e1\n@sealed\n' % rng.choice([8, 9, 65, 255, 256]),
         'nsa/c05/Big.1.0.dsdl': 'uint8[<=%d] data\nbool[<=%d] bits\n@sealed\n' % (rng.choice([4096, 5000, 8000]), rng.choice([4097, 9001])),
+        # types ENDING in an aligned integer of non-standard width (a whole-storage copy would overrun an exactly sized buffer)
+        'nsa/c05/Tail24.1.0.dsdl': 'uint8 a\nuint24 tail\n@sealed\n',
+        'nsa/c05/Tail40.1.0.dsdl': 'uint16 a\nint40 tail\n@sealed\n',
+        'nsa/c05/Tail56.1.0.dsdl': 'uint56 tail\n@sealed\n',
+        'nsa/c05/Tail17.1.0.dsdl': 'uint8[<=2] a\nuint17 tail\n@sealed\n',
+        'nsa/c05/TailArr.1.0.dsdl': 'uint8 a\nuint24[3] tails\n@sealed\n',
+        # a nested delimited type without slack (body maximum = extent): a value of maximal size fills the nested buffer exactly
+        'nsa/c05/DelimTight.1.0.dsdl': 'uint8[<=5] x\n@extent 48\n',
+        'nsa/c05/OuterTight.1.0.dsdl': 'uint8 a\nnsa.c05.DelimTight.1.0 d\nnsa.c05.DelimTight.1.0[<=2] ds\n@sealed\n',
         # unions with 2 and with many options
         'nsa/c05/U2.1.0.dsdl': '@union\nuint8 a\nuint16 b\n@sealed\n',
         'nsa/c05/UMany.1.0.dsdl': '@union\n' + ''.join('uint%d o%d\n' % (1 + (i * 7) % 64, i) for i in range(many)) + '@extent %d\n' % (8 * 16),
@@ -242,22 +256,42 @@ def pydsdl_expected(c: dict) -> typing.Dict[str, typing.Any]:
     return exp
 
 
-def const_ok(kt: dict, value: str, got: str, target: str) -> typing.Tuple[bool, str]:
-    """compare one printed constant with the DSDL value; floats: bit pattern of the storage type within 1 ulp of the exact rational"""
+OPERAND_ROUNDING = 'F-FLOAT-OPERAND-ROUNDING'
+
+
+def const_ok(kt: dict, value: str, got: str, target: str, mc: typing.Optional[dict] = None) -> typing.Tuple[bool, str, str]:
+    """compare one printed constant with the DSDL value.  Returns (ok, expected shown, class) with class in
+    '' | 'impl' (the implementation violates the property) | 'model' (implementation fine, model prediction differs) |
+    'operand-rounding' (instance of F-FLOAT-OPERAND-ROUNDING: more than 1 ulp off, exactly as the quirk-faithful model predicts).
+    Floats: the property is "bit pattern of the storage type within 1 ulp of the correctly rounded rational" (oracle: Python
+    fractions, independent of Coq); in addition the extracted model (MetaC05Float.v) predicts the exact bits."""
     k = kt['k']
     if k == 'bool':
-        return got == ('1' if value == 'true' else '0'), ('1' if value == 'true' else '0')
+        w = '1' if value == 'true' else '0'
+        return got == w, w, '' if got == w else 'impl'
     if k in ('uint', 'int'):
-        return got == str(int_value(value)), str(int_value(value))
+        w = str(int_value(value))
+        return got == w, w, '' if got == w else 'impl'
     if k == 'float':
         wb = 64 if kt['w'] == 64 else 32
         want = round_to_binary(parse_fraction(value), wb)
         try:
             g = int(got, 16)
         except ValueError:
-            return False, '%x' % want
-        return abs(ordered(g, wb) - ordered(want, wb)) <= 1, '%x (+-1 ulp)' % want
-    return False, '?'
+            return False, '%x' % want, 'impl'
+        within = abs(ordered(g, wb) - ordered(want, wb)) <= 1
+        fe = (mc or {}).get('feval') or {}
+        key = {('c', 64): 'c64', ('cpp', 64): 'c64', ('c', 32): 'c32', ('cpp', 32): 'c32', ('py', 64): 'rn64', ('py', 32): 'p32'}[(target, wb)]
+        pred = int(fe[key]) if fe.get(key, 'none').isdigit() else None
+        if not within:
+            if pred == g and target in ('c', 'cpp') and mc and mc.get('div') and fe.get('exact') == '0' \
+                    and parse_fraction(value).denominator != 1:
+                return False, '%x (+-1 ulp)' % want, 'operand-rounding'
+            return False, '%x (+-1 ulp)' % want, 'impl'
+        if pred is not None and pred != g:
+            return False, '%x (model prediction)' % pred, 'model'
+        return True, '%x' % want, ''
+    return False, '?', 'impl'
 
 
 FLOAT_RANGE = 'F-FLOAT-LIT-RANGE'
@@ -279,7 +313,7 @@ def py_repr_float(fr: fractions.Fraction) -> str:
         return 'inf'
 
 
-def float_model_ok(t: typing.List[str], fr: fractions.Fraction) -> bool:
+def float_model_ok(t: typing.List[str], fr: fractions.Fraction, fe: typing.Optional[dict] = None) -> bool:
     """t = tokens of the model's answer `ok <expr> <num>/<den> div=<0|1>`: the division / integral form must denote the rational
     exactly; the oracle's decimal constant must read back as the correctly rounded double and be rendered verbatim"""
     if len(t) != 4 or t[0] != 'ok' or '/' not in t[2]:
@@ -291,6 +325,8 @@ def float_model_ok(t: typing.List[str], fr: fractions.Fraction) -> bool:
         return False
     if fr.denominator == 1 or div:
         return got == fr and not float_lit_overflows('%d/%d' % (fr.numerator, fr.denominator))
+    if fe is not None and fe.get('cert') != '1':
+        return False          # the certificate of the oracle's decimal constant is checked in Coq (oracle_certified)
     return t[1] == py_repr_float(fr) and round_to_binary(got, 64) == round_to_binary(fr, 64)
 
 
@@ -388,7 +424,7 @@ def model_expected(m5: Model5, db: proto.TypeDB, tids: typing.List[str]) -> typi
     bad: typing.List[dict] = []
     n = 0
     xm = m5.run(['xmeta ' + t for t in tids])
-    lit_reqs, lit_idx = [], []
+    lit_reqs, lit_idx, fev_reqs = [], [], []
     for tid in tids:
         for k in db.comp(tid)['constants']:
             kt = k['type']
@@ -399,17 +435,22 @@ def model_expected(m5: Model5, db: proto.TypeDB, tids: typing.List[str]) -> typi
                 fr = parse_fraction(k['value'])
                 lit_reqs.append('flt %d %d %s' % (fr.numerator, fr.denominator, py_repr_float(fr)))
                 lit_idx.append((tid, k['name'], kt, k['value']))
+                fev_reqs.append('feval %d %d %s' % (fr.numerator, fr.denominator, py_repr_float(fr)))
     lits = m5.run(lit_reqs)
+    fevs = iter(m5.run(fev_reqs))
     ports = {}
     for fam in ('c', 'cpp', 'py'):
         rs = m5.run(['port %s %s' % (fam, 'none' if pydsdl_expected(db.comp(t))['port_id'] is None else pydsdl_expected(db.comp(t))['port_id'])
                      for t in tids])
         for t, r in zip(tids, rs):
             ports.setdefault(t, {})[fam] = r.split()[1] if r.startswith('ok ') else '?'
-    for tid, r in zip(tids, xm):
+    names = m5.run(['names %s %d %d' % (db.comp(t)['full_name'], db.comp(t)['major'], db.comp(t)['minor']) for t in tids])
+    for tid, r, nm in zip(tids, xm, names):
         c = db.comp(tid)
         d = kv(r) if r.startswith('ok') else {}
-        out[tid] = {'xmeta': d, 'consts': {}, 'port': ports.get(tid, {})}
+        out[tid] = {'xmeta': d, 'consts': {}, 'port': ports.get(tid, {}), 'names': nm.split()[1:]}
+        if nm.split()[1:] != [c['full_name'], '%s.%d.%d' % (c['full_name'], c['major'], c['minor'])]:
+            bad.append({'tid': tid, 'model': nm, 'problems': ['full name / version strings rendered by the model differ from the DSDL ones']})
         want = pydsdl_expected(c)
         wp = 'none' if want['port_id'] is None else str(want['port_id'])
         if any(v != wp for v in ports.get(tid, {}).values()):
@@ -444,8 +485,10 @@ def model_expected(m5: Model5, db: proto.TypeDB, tids: typing.List[str]) -> typi
                 bad.append({'tid': tid, 'constant': name, 'model': r, 'problems': ['translated filter_literal does not denote %s' % value]})
         else:
             fr = parse_fraction(value)
-            good = float_model_ok(t, fr)
-            out[tid]['consts'][name] = {'token': t[1].replace('_', ' ') if len(t) > 1 else None, 'value': value if good else None}
+            fe = kv(next(fevs, ''))
+            good = float_model_ok(t, fr, fe)
+            out[tid]['consts'][name] = {'token': t[1].replace('_', ' ') if len(t) > 1 else None, 'value': value if good else None,
+                                        'feval': fe, 'div': len(t) == 4 and t[3] == 'div=1'}
             if not good:
                 bad.append({'tid': tid, 'constant': name, 'model': r, 'problems': ['translated float expression does not denote %s' % value]})
     return out, bad, n
@@ -516,7 +559,7 @@ def translator_selftest(chk: core.Check, exe5: str) -> typing.Tuple[int, typing.
             t = m.split()
             ctype = 'double' if w == 64 else 'float'
             want = impl['cast_format'].format(type=ctype, value=t[1].replace('_', ' ') if len(t) > 1 else '?')
-            if i != want or not float_model_ok(t, fractions.Fraction(int(n), int(d))):
+            if i != want or not float_model_ok(t, fractions.Fraction(int(n), int(d)), None):
                 bad.append({'function': 'filter_literal (float)', 'argument': [w, n, d], 'translated': m, 'python': i, 'lang': lang})
     return total, bad
 
@@ -528,7 +571,7 @@ def translator_selftest(chk: core.Check, exe5: str) -> typing.Tuple[int, typing.
 FAMILY = {'c': 'c', 'cpp': 'cpp', 'py': 'py'}
 
 
-def check_meta(tgt: proto.Target, c: dict, got: str, mexp: dict) -> typing.Tuple[int, typing.List[dict], typing.List[str]]:
+def check_meta(tgt: proto.Target, c: dict, got: str, mexp: dict, known_ok: bool = False) -> typing.Tuple[int, typing.List[dict], typing.List[str]]:
     """returns (number of compared values, problems, strata)"""
     want = pydsdl_expected(c)
     fam = FAMILY[tgt.name]
@@ -580,11 +623,16 @@ def check_meta(tgt: proto.Target, c: dict, got: str, mexp: dict) -> typing.Tuple
             probs.append({'key': key, 'got': None, 'pydsdl': k['value'], 'model': None, 'note': 'constant not exported'})
             continue
         n += 1
-        ok, shown = const_ok(k['type'], k['value'], d[key], tgt.name)
+        ok, shown, cls = const_ok(k['type'], k['value'], d[key], tgt.name, mexp['consts'].get(k['name']))
         strata.append('const_%s%s' % (k['type']['k'], k['type'].get('w', '')))
+        if cls == 'operand-rounding':
+            strata.append('known:' + OPERAND_ROUNDING)
+            if known_ok:
+                continue
+            cls = 'impl'
         if not ok:
             probs.append({'key': key, 'got': d[key], 'pydsdl': shown, 'model': mexp['consts'].get(k['name']), 'dsdl_value': k['value'],
-                          'dsdl_type': '%s%s' % (k['type']['k'], k['type'].get('w', ''))})
+                          'dsdl_type': '%s%s' % (k['type']['k'], k['type'].get('w', '')), 'impl_wrong': cls == 'impl'})
     return n, probs, strata
 
 
@@ -748,7 +796,10 @@ def main(chk: core.Check, replay: typing.Optional[str] = None) -> int:
             stats['builds'].append(lab)
             for tid, got in zip(tids, outs):
                 evaluations += 1
-                n, probs, strata = check_meta(tgt, db.comp(tid), got, mexp[tid])
+                n, probs, strata = check_meta(tgt, db.comp(tid), got, mexp[tid], known_ok=chk.is_known(OPERAND_ROUNDING))
+                if 'known:' + OPERAND_ROUNDING in strata and chk.is_known(OPERAND_ROUNDING):
+                    stats['known_finding_instances'] = stats.get('known_finding_instances', 0) + 1
+                    chk.report_known(OPERAND_ROUNDING, 'e.g. %s on %s' % (tid, lab))
                 validated += n
                 stats['meta_values_compared'] += n
                 for s in strata:
@@ -845,6 +896,35 @@ def main(chk: core.Check, replay: typing.Optional[str] = None) -> int:
                     failures.append({'_nfiles': nf, 'kind': 'capacity', 'label': lab, 'target': tgt.name, 'options': tgt.options, 'tid': tid, 'cap_bytes': cap,
                                      'max_bytes': maxb, 'request': req, 'expected_spec': so, 'got': got, 'problem': problem, 'value': v,
                                      '_prep': prep, '_tgt': tgt})
+        # Python: no caller-provided buffer; a value of maximal size must serialize (into the _EXTENT_BYTES_-sized buffer the generated
+        # code allocates) to at most the advertised size, and to the size the specification says
+        py_idx = [i for i, (tid, v, cap, maxb) in enumerate(ser_cases) if cap == maxb]
+        for lab, tgt in [(lab, tgt) for lab, tgt in prep.targets if tgt.name == 'py']:
+            try:
+                outs = tgt.run([reqs[i] for i in py_idx], timeout=900.0)
+            except Exception as ex:  # noqa: BLE001
+                outs = ['crash runner raised %r' % (ex,)] * len(py_idx)
+            stats['ser_requests'] += len(outs)
+            for i, got in zip(py_idx, outs):
+                tid, v, cap, maxb = ser_cases[i]
+                so = spec_out[i]
+                evaluations += 1
+                if got.startswith('err rejected') or not so.startswith('ok'):
+                    continue
+                validated += 1
+                problem = None
+                if not got.startswith('ok'):
+                    problem = 'a value of maximal size does not serialize on Python: %s' % got[:160]
+                else:
+                    size = int(got.split()[1])
+                    if size > maxb or size > (db.comp(tid)['extent_bits'] + 7) // 8 or size != int(so.split()[1]):
+                        problem = 'serialized size %d, advertised bound %d, specification %s' % (size, maxb, so.split()[1])
+                    else:
+                        distinct.add((tid, 'fits', 0, 'py'))
+                if problem and not any(f['kind'] == 'capacity' and f['label'] == lab for f in failures):
+                    failures.append({'_nfiles': len(needed_files(prep, tid)), 'kind': 'capacity', 'label': lab, 'target': 'py', 'options': tgt.options,
+                                     'tid': tid, 'cap_bytes': cap, 'max_bytes': maxb, 'request': reqs[i], 'expected_spec': so, 'got': got,
+                                     'problem': problem, 'value': v, '_prep': prep, '_tgt': tgt})
         for (tid, v, cap, maxb), req, so in list(zip(ser_cases, reqs, spec_out))[::max(1, len(reqs) // 12)]:
             if len(samples) < 40:
                 samples.append({'request': req[:200], 'expected': so[:120], 'cap': cap, 'max_bytes': maxb})
